@@ -13,7 +13,7 @@ import (
 func init() {
 	core.Register(&core.Property{
 		ID:          "C08",
-		Rule:        "byte strings fed to PHYPayload.UnmarshalBinary: (i) uniform random strings of every length 0..256; (ii) structure-aware mutations of valid frames of all 8 MTypes (truncate/extend by 1..3 bytes at every structural boundary, every FOptsLen nibble, FPort forced to 0, splices of two frames, 1-3 bit flips, every RFU-free MHDR value, every rejoin-type byte); (iii) the complete sweep of the 32 RFU-free MHDR values x 600 seeded bodies of 4..30 bytes around every length guard. Oracle: whenever the decoder accepts a string whose MHDR bits 4..2 are zero, MarshalBinary must succeed and return exactly that string, and decoding the output must give an equal frame. A run with fewer than 300 accepted inputs for any MType is inconclusive. Distinct = (MType, length class, FOptsLen, FPort kind, mutation kind, accepted?).",
+		Rule:        "byte strings fed to PHYPayload.UnmarshalBinary: (i) uniform random strings of every length 0..256; (ii) structure-aware mutations of valid frames of all 8 MTypes (truncate/extend by 1..3 bytes at every structural boundary, every FOptsLen nibble, FPort forced to 0, splices of two frames, 1-3 bit flips, every RFU-free MHDR value, every rejoin-type byte); (ii-b) valid and header-only frames decoded into one re-used PHYPayload value; (iii) the complete sweep of the 32 RFU-free MHDR values x 600 seeded bodies of 4..30 bytes around every length guard. Oracle: whenever the decoder accepts a string whose MHDR bits 4..2 are zero, MarshalBinary must succeed and return exactly that string, and decoding the output must give an equal frame. A run with fewer than 300 accepted inputs for any MType is inconclusive. Distinct = (MType, length class, FOptsLen, FPort kind, mutation kind, accepted?).",
 		Assumptions: []string{"frames with MHDR RFU bits (4..2) set are outside the property (the decoder drops those bits by design, see C05 finding)"},
 		MinEvals:    1000,
 		Run:         runC08,
@@ -224,6 +224,42 @@ func runC08(c *core.Ctx) {
 			kind = "rejointype"
 		}
 		c08Check(c, b, kind)
+	}
+
+	// (ii-b) a receiver that decodes successive inputs into the same PHYPayload value
+	m := c.N(20000, 1500000)
+	var reused lorawan.PHYPayload
+	for i := int64(0); i < m; i++ {
+		if !c.Mine("reused-receiver", i) {
+			continue
+		}
+		r := c.RNG("reused-receiver", i)
+		mt := 2 + r.Intn(4)
+		if r.Chance(1, 4) {
+			mt = r.Intn(8)
+		}
+		b := validFrameBytes(r, mt)
+		if r.Chance(1, 3) && mt >= 2 && mt <= 5 { // header-only frame (e.g. an empty ACK)
+			b = append(append([]byte{}, b[:8]...), b[len(b)-4:]...)
+			b[5] &= 0xf0
+		}
+		b[0] &^= 0x1c
+		var err error
+		c.Eval(1)
+		if p, msg := core.Guard(func() { err = reused.UnmarshalBinary(append([]byte{}, b...)) }); p {
+			c.Violate("C08|decode-panic|reused|"+core.PanicSite(msg), "%x: %s", b, short(msg, 300))
+			reused = lorawan.PHYPayload{}
+			continue
+		}
+		if err != nil {
+			continue
+		}
+		out, err := reused.MarshalBinary()
+		if err != nil || !bytes.Equal(out, b) {
+			c.Violate(fmt.Sprintf("C08|reused-receiver|mtype=%d", mt), "a PHYPayload value that decoded other frames before accepts %x but re-encodes it as %x (%v)", b, out, err)
+			reused = lorawan.PHYPayload{}
+		}
+		c.Shape("reused", mt, lenClassName(len(b)))
 	}
 
 	// (iii) all RFU-free MHDR values x bodies around the length guards
